@@ -318,6 +318,34 @@ fn check_node(n: &Node, pr: &Progs) -> Vec<(String, String, String)> {
                 "MasterReset".into(),
             ));
         }
+        // "interrupt control cleared" in behaviour, not only in the register read-back: with no source
+        // selected no external change may raise the board's interrupt flags any more
+        {
+            let before = r.bus().read(0xF3);
+            let probes: [(&str, fn(&mut Machine, bool)); 7] = [
+                ("jumper 1", |x, b| x.set_jumper1(b)),
+                ("UIO1", |x, b| x.set_universal_input_output1(b)),
+                ("UIO2", |x, b| x.set_universal_input_output2(b)),
+                ("UIO3", |x, b| x.set_universal_input_output3(b)),
+                ("analog input 1", |x, b| x.set_analog_input1(if b { 4.5 } else { 0.0 })),
+                ("analog input 2", |x, b| x.set_analog_input2(if b { 4.5 } else { 0.0 })),
+                ("temperature", |x, b| x.set_temp(if b { 4.5 } else { 0.0 })),
+            ];
+            for (name, f) in probes {
+                let mut x = r.clone();
+                for level in [true, false, true, false] {
+                    f(&mut x, level);
+                    if x.bus().read(0xF3) != before {
+                        bad.push((
+                            "master-reset/interrupt-control-still-active".into(),
+                            format!("after master_reset the interrupt control register reads {:#04x}, but a change of {} raised the board's interrupt flags ({:#06b} -> {:#06b})", x.bus().board().daicr().bits(), name, before, x.bus().read(0xF3)),
+                            "MasterReset".into(),
+                        ));
+                        break;
+                    }
+                }
+            }
+        }
         let mut touched = vec![];
         if r.bus().memory()[..] != m.bus().memory()[..] {
             touched.push("RAM".to_string());
